@@ -345,7 +345,7 @@ func cmdCheck(args []string) int {
 				"cases": len(hr.Stats.Cases), "reach": hr.Stats.Reached, "params": copyParams(currentParams),
 				"violations": len(hr.Violations), "inconclusive": len(hr.Inconclusive)}
 			perHarness = append(perHarness, ph)
-			if hr.Stats.Paths == 0 && len(hr.Inconclusive) == 0 {
+			if hr.Stats.Paths == 0 && len(hr.Inconclusive) == 0 && len(hr.Violations) == 0 {
 				allInc = append(allInc, Inconclusive{Harness: hr.Harness, Reason: "vacuous: no feasible complete path"})
 			}
 			// group counterexamples by message; replay until one reproduces
